@@ -78,6 +78,9 @@ type modeler struct {
 	cfgs map[uintptr]*model.Node
 	// cfgExp: the tree every mentioned *Config field has to hold afterwards
 	cfgExp map[*field]*model.Node
+	// allocs counts, per pointee struct type, the nil inline pointers the
+	// settings make this one Unpack call allocate (monitor only)
+	allocs map[reflect.Type]int
 }
 
 func applyInit(v reflect.Value) {
@@ -145,6 +148,9 @@ func (m *modeler) applyField(f *field, v reflect.Value, cv *cval, pc polCtx) {
 		}
 		if v.IsNil() {
 			v.Set(reflect.New(f.sub.typ))
+			if f.inline && m.allocs != nil {
+				m.allocs[f.sub.typ]++
+			}
 		}
 		m.applyStruct(f.sub, v.Elem(), cv, pc.below())
 	case kUntouched:
@@ -239,9 +245,9 @@ func (m *modeler) mergeList(f *field, pre reflect.Value, cv *cval, pol string) r
 		p := reflect.New(f.sub.typ)
 		e := p.Elem()
 		if base = deref(base); base.IsValid() {
-			e.Set(base)
+			e.Set(deepCopy(base)) // the elements may hold (inlined) pointers
 		}
-		(&modeler{}).applyStruct(f.sub, e, cv.list[i], polCtx{"default", "none", ""})
+		(&modeler{allocs: m.allocs}).applyStruct(f.sub, e, cv.list[i], polCtx{"default", "none", ""})
 		if f.elemPtr {
 			return p
 		}
